@@ -1192,7 +1192,7 @@ class GrammarBuilder:
 
         if isinstance(arg1, Tree):  # Multi import
             dotted_path = tuple(path_node.children)
-            names = arg1.children
+            names = [name.value for name in arg1.children]  # Plain strings, as for a single import (not Tokens)
             aliases = dict(zip(names, names))  # Can't have aliased multi import, so all aliases will be the same as names
         else:  # Single import
             dotted_path = tuple(path_node.children[:-1])
